@@ -264,7 +264,8 @@ impl MerkleTree {
     /// The leaf at the given index, if it exists.
     pub fn leaf(&self, index: usize) -> Option<Digest> {
         let first_leaf_index = self.nodes.len() / 2;
-        self.nodes.get(first_leaf_index + index).copied()
+        let node_index = first_leaf_index.checked_add(index)?;
+        self.nodes.get(node_index).copied()
     }
 
     pub fn indexed_leafs(&self, indices: &[usize]) -> Result<Vec<(usize, Digest)>> {
